@@ -55,6 +55,17 @@ class MarkerEnum(enum.Enum):
 FIXED_VALUES += list(AdvEnum)
 
 
+def negative(a):
+    """is the number written with a minus sign"""
+    return str(a).startswith("-")
+
+
+def magnitude(a):
+    if not negative(a):
+        return a
+    return a.copy_abs() if isinstance(a, decimal.Decimal) else (abs(a) if type(a) is int else -a)
+
+
 class Mapping:
     """base key -> (marker, actual); kinds: 'n' names, 's' strings, 'i' ints, 'f' floats/decimals, 'j' dict/list."""
 
@@ -92,12 +103,16 @@ class Mapping:
         if isinstance(v, str):
             i = self._i("s", v)
             return "zqv%d" % i if mode == "B" else self._pick(ADV_STRS, i, self.salt, lambda x, r: x + "#" + str(r))
+        # (a numeric marker carries the SIGN of the actual value: the library decides about parentheses after a minus sign on
+        #  the sign of a constant, which is structure, not text; the map sends the marker's digits to the actual magnitude)
         if type(v) is int:
             i = self._i("i", v)
-            return 7700000 + i if mode == "B" else self._pick(ADV_INTS, i, self.salt, lambda x, r: x * 1000 + r)
+            a = self._pick(ADV_INTS, i, self.salt, lambda x, r: x * 1000 + r)
+            return (-(7700000 + i) if negative(a) else 7700000 + i) if mode == "B" else a
         if isinstance(v, (float, decimal.Decimal)):
             i = self._i("f", str(v))
-            return 7700000.5 + i if mode == "B" else self._pick(ADV_NUMS, i, self.salt, lambda x, r: x)
+            a = self._pick(ADV_NUMS, i, self.salt, lambda x, r: x)
+            return (-(7700000.5 + i) if negative(a) else 7700000.5 + i) if mode == "B" else a
         if isinstance(v, dict):      # (a list becomes an SQL array / tuple of separately inlined elements: left as drawn)
             i = self._i("j", json.dumps(v, sort_keys=True))
             return {"zqv": i} if mode == "B" else self._pick(ADV_DICTS, i, self.salt, lambda x, r: x)
@@ -118,10 +133,10 @@ class Mapping:
                 ents.append("(%s, MVal %s)" % (cstr("zqv%d" % i), dump_value(a)))
             elif kind == "i":
                 a = self._pick(ADV_INTS, i, self.salt, lambda x, r: x * 1000 + r)
-                ents.append("(%s, MVal %s)" % (cstr(str(7700000 + i)), dump_value(a)))
+                ents.append("(%s, MVal %s)" % (cstr(str(7700000 + i)), dump_value(magnitude(a))))
             elif kind == "f":
                 a = self._pick(ADV_NUMS, i, self.salt, lambda x, r: x)
-                ents.append("(%s, MVal %s)" % (cstr(str(7700000.5 + i)), dump_value(a)))
+                ents.append("(%s, MVal %s)" % (cstr(str(7700000.5 + i)), dump_value(magnitude(a))))
             elif kind == "j":
                 a = self._pick(ADV_DICTS, i, self.salt, lambda x, r: x)
                 ents.append("(%s, MVal %s)" % (cstr(json.dumps({"zqv": i})), dump_value(a)))
